@@ -113,10 +113,12 @@ func interestingCall(name string) bool {
 }
 
 type walker struct {
-	p      *pkgInfo
-	toks   []string
-	st     lockState
-	defers []func()
+	p       *pkgInfo
+	toks    []string
+	st      lockState
+	defers  []func()
+	covered []string // locks whose release is deferred
+	leaks   []string // lock sets still held (and not covered by a deferred release) at a return
 }
 
 func (w *walker) emit(format string, a ...interface{}) { w.toks = append(w.toks, fmt.Sprintf(format, a...)) }
@@ -130,6 +132,16 @@ func (w *walker) call(ce *ast.CallExpr, deferred bool) {
 	case *ast.FuncLit:
 		body := fun.Body
 		if deferred {
+			ast.Inspect(body, func(n ast.Node) bool {
+				if ce, ok := n.(*ast.CallExpr); ok {
+					if se, ok := ce.Fun.(*ast.SelectorExpr); ok && (se.Sel.Name == "Unlock" || se.Sel.Name == "RUnlock") {
+						if mu := mutexOf(exprText(se.X)); mu != "" {
+							w.covered = append(w.covered, mu)
+						}
+					}
+				}
+				return true
+			})
 			w.defers = append(w.defers, func() { w.blockWithDefers(body) })
 		} else {
 			w.blockWithDefers(body)
@@ -155,6 +167,9 @@ func (w *walker) call(ce *ast.CallExpr, deferred bool) {
 				}
 			}
 			if deferred {
+				if fun.Sel.Name == "Unlock" || fun.Sel.Name == "RUnlock" {
+					w.covered = append(w.covered, mu)
+				}
 				w.defers = append(w.defers, act)
 			} else {
 				act()
@@ -246,10 +261,21 @@ func (w *walker) stmt(s ast.Stmt) {
 		for _, r := range x.Results {
 			w.expr(r)
 		}
+		w.checkLeak()
 	case *ast.IfStmt:
 		w.stmt(x.Init)
 		w.expr(x.Cond)
 		saved := append([]string(nil), w.st.held...)
+		// `if !l.TryLock() { ... }`: inside the branch the lock was NOT acquired
+		if ue, ok := x.Cond.(*ast.UnaryExpr); ok && ue.Op == token.NOT {
+			if ce, ok := ue.X.(*ast.CallExpr); ok {
+				if se, ok := ce.Fun.(*ast.SelectorExpr); ok && se.Sel.Name == "TryLock" {
+					if mu := mutexOf(exprText(se.X)); mu != "" {
+						w.st.release(mu)
+					}
+				}
+			}
+		}
 		w.block(x.Body)
 		if terminates(x.Body) {
 			// the branch leaves the function (or the loop iteration): what it released is
@@ -302,6 +328,26 @@ func (w *walker) stmt(s ast.Stmt) {
 	}
 }
 
+// checkLeak records the locks held at a return that no deferred call will release.
+func (w *walker) checkLeak() {
+	var left []string
+	for _, h := range w.st.held {
+		l := strings.SplitN(h, ":", 2)[0]
+		cov := false
+		for _, c := range w.covered {
+			if c == l {
+				cov = true
+			}
+		}
+		if !cov {
+			left = append(left, lkName(l))
+		}
+	}
+	if len(left) > 0 {
+		w.leaks = append(w.leaks, "["+strings.Join(left, "; ")+"]")
+	}
+}
+
 func terminates(b *ast.BlockStmt) bool {
 	if b == nil || len(b.List) == 0 {
 		return false
@@ -331,13 +377,16 @@ func walkFunc(p *pkgInfo, fd *ast.FuncDecl) []string {
 
 // blockWithDefers walks a function body: function literals called immediately get their own defer stack.
 func (w *walker) blockWithDefers(b *ast.BlockStmt) {
-	saved := w.defers
-	w.defers = nil
+	saved, savedCov := w.defers, w.covered
+	w.defers, w.covered = nil, nil
 	w.block(b)
+	if !terminates(b) {
+		w.checkLeak() // falling off the end of the body
+	}
 	for i := len(w.defers) - 1; i >= 0; i-- {
 		w.defers[i]()
 	}
-	w.defers = saved
+	w.defers, w.covered = saved, savedCov
 }
 
 func coqIdent(s string) string {
@@ -369,6 +418,7 @@ func shape(db, fsp *pkgInfo) string {
 		{fsp, "", "createLockFile"}, {fsp, "osLockFile", "Unlock"},
 	}
 	var names []string
+	var leaks []string
 	for _, t := range targets {
 		fd := t.p.funcDecl(t.recv, t.name)
 		if fd == nil {
@@ -383,6 +433,9 @@ func shape(db, fsp *pkgInfo) string {
 			id = "shape_" + t.recv + "_" + t.name
 		}
 		names = append(names, id)
+		for _, lk := range w.leaks {
+			leaks = append(leaks, fmt.Sprintf("(\"%s\", %s)", strings.TrimPrefix(id, "shape_"), lk))
+		}
 		fmt.Fprintf(&b, "Definition %s : list tok :=\n  [", coqIdent(id))
 		for i, tk := range w.toks {
 			if i > 0 {
@@ -400,7 +453,9 @@ func shape(db, fsp *pkgInfo) string {
 		}
 		fmt.Fprintf(&b, "(\"%s\", %s)", strings.TrimPrefix(n, "shape_"), coqIdent(n))
 	}
-	b.WriteString("].\n")
+	b.WriteString("].\n\n")
+	b.WriteString("(* locks still held at a return statement (or at the end of a function body) that no deferred call releases *)\n")
+	fmt.Fprintf(&b, "Definition lock_leaks : list (string * list lk) :=\n  [%s].\n", strings.Join(leaks, ";\n   "))
 	return b.String()
 }
 
